@@ -669,7 +669,7 @@ func (obj *DenseReal32Matrix) UnmarshalJSON(data []byte) error {
   if err := json.Unmarshal(data, &r); err != nil {
     return err
   }
-  if r.Rows < 0 || r.Cols < 0 || len(r.Values) != r.Rows*r.Cols {
+  if r.Rows < 0 || r.Cols < 0 || (r.Cols != 0 && r.Rows*r.Cols/r.Cols != r.Rows) || len(r.Values) != r.Rows*r.Cols {
     return fmt.Errorf("invalid json matrix representation")
   }
   obj.values = nilDenseReal32Vector(len(r.Values))
